@@ -549,6 +549,33 @@ func genProgQualified(r *hx.Rng) *gScen {
 	return g.sc
 }
 
+// a two-cycle hub ⇄ peer next to a DENSE layered acyclic region (every component of layer i wires all three of layer i+1):
+// 3·depth + 2 components, each created once — but 3^depth different paths lead through the region
+func genLadder(r *hx.Rng, depth int) *gScen {
+	g := newBuilder(r)
+	plain := func(u utInfo) bool { return !u.pp && !u.lazy && !u.runner && !u.closer }
+	hub := g.addNode(g.randType(plain), true)
+	peer := g.addNode(g.randType(plain), true)
+	g.sc.nodes[hub].cust, g.sc.nodes[peer].cust = "a-hub", "b-peer"
+	layer := func(i, j int) string { return fmt.Sprintf("l%02d-%d", i, j) }
+	for i := 0; i < depth; i++ {
+		for j := 0; j < 3; j++ {
+			n := g.addNode(g.randType(plain), true)
+			g.sc.nodes[n].cust = layer(i, j)
+			if i+1 < depth {
+				g.sc.nodes[n].slots["A0"] = "w" + layer(i+1, 0)
+				g.sc.nodes[n].slots["A1"] = "w" + layer(i+1, 1)
+				g.sc.nodes[n].slots["A2"] = "w" + layer(i+1, 2)
+			}
+		}
+	}
+	g.sc.nodes[hub].slots["A0"] = "w" + layer(0, 0) // declared before the point that closes the cycle
+	g.sc.nodes[hub].slots["A1"] = "wb-peer"
+	g.sc.nodes[peer].slots["A0"] = "wa-hub"
+	g.sc.nodes[peer].slots["A1"] = "w" + layer(0, 1)
+	return g.sc
+}
+
 // every point optional: qualifiers that match nothing although candidates of the type exist, names that are absent or of
 // another type, func tags nobody exposes, self-only points, array points — none of it may fail the start
 func genAllOptional(r *hx.Rng) *gScen {
@@ -1001,6 +1028,8 @@ func graphCorpus(w *hx.Writer) {
 			}
 		}
 	}
+	emitGraph(genLadder(r.Fork(), 22), []string{"corpus", "ladder"}, w)
+	emitGraph(genLadder(r.Fork(), 30), []string{"corpus", "ladder"}, w)
 	for i := 0; i < 24; i++ {
 		emitGraph(genRetry(r.Fork()), []string{"corpus", "retry"}, w)
 		emitGraph(genReentrant(r.Fork()), []string{"corpus", "reentrant"}, w)
